@@ -8,6 +8,11 @@ EXTENDS History, Json
 AllKinds == {"loco", "consist", "setspeed", "slts"}
 Slts == {"slts"}
 Iv4 == {0, 1, 2, 3}
+(* <<units' own interval, interval given to Consist::new>>: equal to / different from each other and from the *)
+(* simulation's (which ranges over Iv4)                                                                        *)
+Cons3 == {<<0, 0>>, <<2, 0>>, <<0, 3>>}
+Cons1 == {<<0, 0>>}
+ConsF == {<<2, 0>>}
 
 RECURSIVE SeqsUpTo(_, _)
 SeqsUpTo(S, n) == IF n = 0 THEN {<<>>} ELSE LET P == SeqsUpTo(S, n - 1) IN P \cup {Append(p, x) : p \in P, x \in S}
